@@ -21,7 +21,7 @@ def pristine_parse(texts):
     out = []
     for t in texts:
         p = subprocess.run(["/venv/bin/python", "-W", "ignore", "-c", code, t.hex()], capture_output=True, text=True, timeout=60)
-        out.append(p.stdout.strip().splitlines()[-1] if p.stdout.strip() else "subprocess-failed " + p.stderr[-200:])
+        out.append(p.stdout.rstrip("\n").split("\n")[-1] if p.stdout.strip() else "subprocess-failed " + p.stderr[-200:])
     return out
 
 
